@@ -131,7 +131,8 @@ namespace options
 
                 if (!env_value.empty())
                 {
-                    update_value(env_value);
+                    dirty_ = true;
+                    value_ = env_value;
 
                     return;
                 }
